@@ -28,10 +28,25 @@ theorem DataFmt.isEscape {f : Format} (hf : DataFmt f) (c : UInt8) : f.isEscape 
   by_cases h0 : c = 0
   · subst h0; decide
   · have : (c != 0) = true := by simp [h0]
-    simp [this]
+    simp [this, h0]
 
 theorem DataFmt.isComment {f : Format} (hf : DataFmt f) (c : UInt8) : f.isComment c = (c == 35) :=
   HashOnly.isComment hf.com c
+
+/-- the pending bytes after one more character, whatever the keep state is -/
+theorem addchar_take (e : List (List UInt8)) (l : List UInt8) (k : Bool) (fi : UInt8) (v : Nat) (c : UInt8)
+    (hv : (k = true ∧ v ≤ l.length) ∨ v = 0) :
+    ∃ l' k', (Pth e l k fi).addchar c = Pth e l' k' fi ∧ l'.take v = l.take v := by
+  rcases hv with ⟨hk, hv⟩ | hv
+  · subst hk
+    exact ⟨l ++ [c], true, by simp, by rw [List.take_append_of_le_length hv]⟩
+  · subst hv
+    cases k with
+    | true => exact ⟨l ++ [c], true, by simp, by simp⟩
+    | false =>
+      by_cases hl : l = []
+      · subst hl; exact ⟨[c], false, by simp, by simp⟩
+      · exact ⟨l.dropLast ++ [c], false, addchar_over _ _ _ _ hl, by simp⟩
 
 section steps
 variable {f : Format} (hf : DataFmt f)
@@ -142,21 +157,6 @@ theorem dataStep_in_close (e : List (List UInt8)) (l : List UInt8) (fi : UInt8) 
   unfold dataStep
   simp only [save_stt _ _ _ _ _ _ _ _ (by decide : (34 : UInt8) ≠ 0), addchar_keep]
   simp [hla]
-
-/-- the pending bytes after one more character, whatever the keep state is -/
-theorem addchar_take (e : List (List UInt8)) (l : List UInt8) (k : Bool) (fi : UInt8) (v : Nat) (c : UInt8)
-    (hv : (k = true ∧ v ≤ l.length) ∨ v = 0) :
-    ∃ l' k', (Pth e l k fi).addchar c = Pth e l' k' fi ∧ l'.take v = l.take v := by
-  rcases hv with ⟨hk, hv⟩ | hv
-  · subst hk
-    exact ⟨l ++ [c], true, by simp, by rw [List.take_append_of_le_length hv]⟩
-  · subst hv
-    cases k with
-    | true => exact ⟨l ++ [c], true, by simp, by simp⟩
-    | false =>
-      by_cases hl : l = []
-      · subst hl; exact ⟨[c], false, by simp, by simp⟩
-      · exact ⟨l.dropLast ++ [c], false, addchar_over _ _ _ _ hl, by simp⟩
 
 /-- the line feed ends the value -/
 theorem dataStep_newline (e : List (List UInt8)) (l : List UInt8) (k : Bool) (fi : UInt8) (v cur ln : Nat)
